@@ -27,6 +27,10 @@ func c06Model() model.Model {
 var c06Prio = map[string]string{"a": "20", "b": "10", "c": "30", "d": "15", "e": "oops"}
 var c06PrioOn bool
 
+// c06Extra > 0: every rule carries that many fields beyond the definition (casbin accepts over-long rules; for
+// grouping rules they are legitimate extra columns), each rule with its own value there
+var c06Extra int
+
 // the small op alphabet for exhaustive histories over three rules A, B, C of arity n
 func c06Alphabet(n int, big bool) []SOp {
 	mk := func(s string) []string {
@@ -37,6 +41,9 @@ func c06Alphabet(n int, big bool) []SOp {
 		r[n-1] = "x" // shared last field so that filters can select several rules
 		if c06PrioOn {
 			r[0] = c06Prio[s]
+		}
+		for k := 0; k < c06Extra; k++ {
+			r = append(r, fmt.Sprintf("%sx%d", s, k))
 		}
 		return r
 	}
@@ -58,6 +65,15 @@ func c06Alphabet(n int, big bool) []SOp {
 		SOp{Kind: "rmf", FI: 0, Vals: []string{A[0]}}, SOp{Kind: "rmf", FI: n - 1, Vals: []string{"x"}},
 		SOp{Kind: "rmf", FI: 0, Vals: []string{"", B[1]}},
 	)
+	if c06Extra > 0 {
+		// filters that reach into the columns beyond the definition: they select by those values too
+		ops = append(ops,
+			SOp{Kind: "rmf", FI: n - 1, Vals: []string{"x", B[n]}},    // B only
+			SOp{Kind: "rmf", FI: 0, Vals: append(append([]string{A[0]}, make([]string, n-1)...), A[n])}, // A only
+			SOp{Kind: "rmf", FI: n - 1, Vals: []string{"x", "nobody"}}, // nothing
+			SOp{Kind: "rmf", FI: n, Vals: []string{C[n]}},              // C only
+		)
+	}
 	if big {
 		ops = append(ops,
 			SOp{Kind: "upd", Rule: A, New: mk("d")}, SOp{Kind: "upd", Rule: B, New: A},
@@ -79,6 +95,9 @@ func c06Probes(n int) []SOp {
 		if c06PrioOn {
 			r[0] = c06Prio[s]
 		}
+		for k := 0; k < c06Extra; k++ {
+			r = append(r, fmt.Sprintf("%sx%d", s, k))
+		}
 		return r
 	}
 	return []SOp{
@@ -91,6 +110,7 @@ type storeTarget struct {
 	sec, ptype string
 	n          int
 	prio       bool
+	extra      int
 }
 
 func runC06(c *Ctx) {
@@ -98,11 +118,12 @@ func runC06(c *Ctx) {
 	if c.Thorough() {
 		depth = 4
 	}
-	c.Rule = fmt.Sprintf("all histories of depth <= %d over an alphabet of Add/Remove/Update/RemoveFiltered and batch/Ex variants on three rules, for p (arity 3), p2 (arity 2), g and a definition with a priority field (insertion by priority shifts the index map), through the Enforcer API, observing result, GetPolicy order and the exported PolicyMap after every call and HasPolicy/GetFilteredPolicy probes at the end (exhaustive); plus seeded random histories to length 60 over a universe with separator-like fields (',', '$$', NUL, blanks, empty), over-long rules, update chains; non-trivial = at least one call that changed the store and one that reported false; distinct = whole history", depth)
-	targets := []storeTarget{{"p", "p", 3, false}, {"p", "p2", 2, false}, {"g", "g", 2, false}, {"p", "p3", 3, true}}
+	c.Rule = fmt.Sprintf("all histories of depth <= %d over an alphabet of Add/Remove/Update/RemoveFiltered and batch/Ex variants on three rules, for p (arity 3), p2 (arity 2), g, g with rules that carry a column beyond the definition (filters reach into it) and a definition with a priority field (insertion by priority shifts the index map), through the Enforcer API, observing result, GetPolicy order and the exported PolicyMap after every call and HasPolicy/GetFilteredPolicy probes at the end (exhaustive); plus seeded random histories to length 60 over a universe with separator-like fields (',', '$$', NUL, blanks, empty), over-long rules, update chains; non-trivial = at least one call that changed the store and one that reported false; distinct = whole history", depth)
+	targets := []storeTarget{{"p", "p", 3, false, 0}, {"p", "p2", 2, false, 0}, {"g", "g", 2, false, 0}, {"p", "p3", 3, true, 0}, {"g", "g", 2, false, 1}}
 	caseNo := 0
 	for _, t := range targets {
 		c06PrioOn = t.prio
+		c06Extra = t.extra
 		alpha := c06Alphabet(t.n, false)
 		if t.prio {
 			// additions in every priority order, then removal / update of what was inserted in the middle
